@@ -56,16 +56,16 @@ func vfFaultScenarios() []vfScenario {
 }
 
 type vfRunResult struct {
-	so, co       vfOutcome
-	finished     bool
-	c2s, s2c     []vfMsg
+	so, co         vfOutcome
+	finished       bool
+	c2s, s2c       []vfMsg
 	c2sLen, s2cLen int64
-	dstTree      vfTree
-	srcTree      vfTree
-	names        []string
-	acked        int // files the receiver acknowledged (MD5 acks on its own pre-fault tap)
-	hits         int
-	sess         *vfSession
+	dstTree        vfTree
+	srcTree        vfTree
+	names          []string
+	acked          int // files the receiver acknowledged (MD5 acks on its own pre-fault tap)
+	hits           int
+	sess           *vfSession
 }
 
 // vfCountMD5Acks counts "#SUCC:" replies that directly follow the peer's "#MD5:" in time; on the
@@ -77,7 +77,13 @@ func vfCountMD5Acks(w *vfWire) int {
 		if m.Type != "SUCC" || m.End == 0 {
 			continue
 		}
-		line := bytes.TrimRight(tap[m.Start:m.End], "\n!")
+		line := m.Full
+		if line == nil && m.End <= int64(len(tap)) {
+			line = bytes.TrimRight(tap[m.Start:m.End], "\n!")
+		}
+		if len(line) < 7 {
+			continue
+		}
 		if dec, err := decodeString(string(line[6:])); err == nil && len(dec) == 16 {
 			n++
 		}
